@@ -72,6 +72,9 @@ def execute(seed, mode, workdir):
     import optuna
     from optuna.storages import RetryFailedTrialCallback, fail_stale_trials
 
+    import logging
+
+    logging.getLogger("sqlalchemy.pool").setLevel(logging.CRITICAL)     # a killed worker's closed connection is expected
     rng = random.Random(seed)
     max_retry = rng.choice([-1, 0, 1, 1, 2])
     inherit = rng.randint(0, 1)
@@ -103,7 +106,9 @@ def execute(seed, mode, workdir):
 
             def hook(*a, **k):
                 wk = sched.current_worker()
-                if wk is not None and not getattr(wk, "dying", False):
+                if wk is not None and getattr(wk, "dying", False):
+                    raise Killed()            # a dead process executes nothing more
+                if wk is not None:
                     wk.lines += 1
                     sched.yield_point(wk, "sql")
                     if getattr(wk, "kill", False):
@@ -186,6 +191,8 @@ def execute(seed, mode, workdir):
                         except Killed:
                             return
                         except Exception as e:  # noqa  (database is locked -> StorageInternalError: the sweep aborts)
+                            if getattr(worker, "kill", False):
+                                return
                             sched.event({"e": "aborted", "w": w, "err": type(e).__name__})
                 return body
             for w in range(1, nw + 1):
